@@ -266,3 +266,113 @@ def rule_ideal_early_exit(ctx):
                             if any(callee_matches(callee_of(c), r"slice::len$|Vec::len$") for c in calls):
                                 good = True
                     r.check(good, clo.id, "callback-result", "callback returns `count != grounded.len()`", "the ID callback does not stop the enumeration when the intersection equals the grounded extension", clo.loc())
+
+
+def rule_model_tracks_extension(ctx):
+    prog = ctx.prog
+    r = ctx.rule(
+        "model-tracks-extension",
+        "in the maximal-extension computer, whenever the current set is replaced by the set decoded from a SAT answer, the stored model is "
+        "replaced by the model of that same answer on the same path: the range splitters build the blocking clause and the improvement "
+        "assumptions from the stored model, so a stale model breaks the strict growth of the range (and termination)",
+    )
+    adt = prog.adt(MEC)
+    if not r.require_anchor(adt, MEC):
+        return
+    fields = {f["name"]: f["ty"] for v in adt["variants"] for f in v["fields"]}
+    model_f = [n for n, t in fields.items() if re.match(r"^core::option::Option<sat::sat_solver::Assignment>$", t)]
+    ext_f = [n for n, t in fields.items() if re.match(r"^core::option::Option<alloc::vec::Vec<&", t)]
+    if not r.require_anchor(len(model_f) == 1 and len(ext_f) == 1, "one Option<Assignment> field and one Option<Vec<&Argument>> field in the computer"):
+        return
+    model_f, ext_f = model_f[0], ext_f[0]
+    # the model field is read by the state data handed to the installed closures (otherwise the rule is moot)
+    n = 0
+    for b in prog.lib_bodies():
+        if b.kind == "closure" or not b.impl or b.impl.get("self_adt") != MEC:
+            continue
+
+        def stores(fname):
+            out = []
+            for s in b.sites():
+                nd = s.node
+                if s.si is None or nd["k"] != "assign":
+                    continue
+                fl = [str(x) for x in place_fields(nd["dst"])]
+                if nd["dst"]["l"] == 1 and fl[:1] == [fname] and len(fl) == 1:
+                    out.append(s)
+            return out
+
+        for es in stores(ext_f):
+            # SAT answers the stored set derives from (calls returning something with an Assignment in it)
+            srcs = []
+            for o in origins(b, es.node["rv"]["ops"][0] if es.node["rv"]["k"] == "use" else es.node["dst"], transparent=()) if es.node["rv"]["k"] == "use" else []:
+                if o.kind == "agg" and o.data.get("variant") == "Some":
+                    for oo in origins(b, o.site.node["rv"]["ops"][0], transparent=()):
+                        if oo.kind == "call":
+                            srcs.append(oo)
+                elif o.kind == "call":
+                    srcs.append(o)
+            srcs = [o for o in srcs if "sat::sat_solver::Assignment" in b.local_ty(o.site.node["dst"]["l"])]
+            if not srcs:
+                continue
+            n += 1
+            anchor = "%s|store-current#%d" % (b.id, n)
+            ok = False
+            for ms in stores(model_f):
+                msrc = set()
+                if ms.node["rv"]["k"] != "use":
+                    continue
+                for o in origins(b, ms.node["rv"]["ops"][0], transparent=()):
+                    if o.kind == "agg" and o.data.get("variant") == "Some":
+                        for oo in origins(b, o.site.node["rv"]["ops"][0], transparent=()):
+                            if oo.kind == "call":
+                                msrc.add((oo.site.bb, oo.site.si))
+                same = any((o.site.bb, o.site.si) in msrc for o in srcs)
+                together = (b.dominates(es.bb, ms.bb) and b.postdominates(ms.bb, es.bb)) or (b.dominates(ms.bb, es.bb) and b.postdominates(es.bb, ms.bb))
+                if same and together:
+                    ok = True
+            r.check(ok, anchor, "stale-model", "the model of the same SAT answer is stored on the same path", "`%s` is replaced by the set of a SAT answer but `%s` keeps the model of an earlier answer: the range splitters work on a stale model" % (ext_f, model_f), es.loc())
+    r.floor(n, 2, "places where the computer adopts the set of a SAT answer")
+
+
+def rule_single_computation(ctx):
+    prog = ctx.prog
+    r = ctx.rule(
+        "single-computation-per-query",
+        "a query method of a static solver (a method of SingleExtensionComputer / CredulousAcceptanceComputer / SkepticalAcceptanceComputer) "
+        "delegates to at most one other query method of the same solver on every path, never inside a loop: a query is one computation, and "
+        "the stated SAT-call bounds are bounds of one computation - answering through one query method and then restarting through another "
+        "examines every candidate set again on fresh solvers",
+    )
+    n = n_deleg = 0
+    by_adt = {}
+    for b in prog.lib_bodies():
+        if b.kind != "closure" and b.impl and (b.impl.get("trait") or "").startswith("solvers::specs::") and (b.impl.get("self_adt") or "").startswith("solvers::"):
+            by_adt.setdefault(b.impl["self_adt"], []).append(b)
+    if not r.require_anchor(by_adt, "implementations of the solver traits in solvers::"):
+        return
+    for adt_path, methods in sorted(by_adt.items()):
+        ids = {b.id for b in methods}
+        for b in sorted(methods, key=lambda x: x.id):
+            n += 1
+            sites = []
+            for bb in prog.with_closures(b):
+                for s, t in prog.callees(bb, include_closures=False, virtual_dispatch=False):
+                    if t.id in ids and t.id != b.id:
+                        sites.append((bb, s, t))
+            if not sites:
+                continue
+            n_deleg += 1
+            bad = None
+            for bb, s, t in sites:
+                if bb is not b:
+                    bad = "inside a closure (%s)" % bb.id
+                elif b.in_loop(s.bb):
+                    bad = "inside a loop (%s)" % s.loc()
+            for i, (b1, s1, t1) in enumerate(sites):
+                for b2, s2, t2 in sites[i + 1 :]:
+                    if b1 is b and b2 is b and (s1.bb == s2.bb or b.reaches(s1.bb, s2.bb) or b.reaches(s2.bb, s1.bb)):
+                        bad = "twice on one path (%s at %s and %s at %s)" % (t1.path.rsplit("::", 1)[-1], s1.loc(), t2.path.rsplit("::", 1)[-1], s2.loc())
+            r.check(bad is None, b.id, "restarted-computation", "delegates to one query method per path", "the query delegates to other query methods %s: the computation is run more than once for one query" % bad, b.loc())
+    r.floor(n, 30, "query methods of the static solvers")
+    r.floor(n_deleg, 4, "query methods delegating to another query method")
